@@ -76,9 +76,24 @@ def expr_text(cr, e):
 
 
 def locals_in(e):
+    """(name, binding id) of the local variables an expression refers to - without the ones the expression binds itself (`let`
+    statements of a block, closure parameters, match arms, `if let`)"""
+    inner = set()
+    for x, _ in walk(e):
+        k = x.get('k')
+        pats = []
+        if k == 'let' and 'p' in x:
+            pats.append(x['p'])
+        elif k == 'closure':
+            pats += x.get('ps', [])
+        elif k == 'match':
+            pats += [a['p'] for a in x['arms']]
+        for p in pats:
+            for b in pat_bindings(p):
+                inner.add(b['id'])
     out = []
     for x, _ in walk(e):
-        if x.get('k') == 'path' and x.get('res') == 'local':
+        if x.get('k') == 'path' and x.get('res') == 'local' and x['id'] not in inner:
             out.append((x['n'], x['id']))
     return out
 
